@@ -40,7 +40,64 @@ def _family(vc, name, params):
         return vc.GeneralizedGammaDistribution(**params)
     if name == "vonmises":
         return vc.VonMisesDistribution(**params)
+    if name == "lognormfit":
+        return vc.distributions.LogNormalNormFitDistribution(**params)
+    if name == "scipygamma":
+        global _GAMMA
+        if _GAMMA is None:
+            class GammaDistribution(vc.ScipyDistribution):
+                scipy_dist_name = "gamma"
+            _GAMMA = GammaDistribution
+        return _GAMMA(**params)
     raise ValueError(name)
+
+
+_GAMMA = None
+SIGNED = ("normal", "vonmises")       # families with negative values: never used as conditioning variable
+
+# the predefined model structures, fitted to the shipped one-year benchmark datasets (column order as the structure expects)
+PREDEFINED = {
+    "get_DNVGL_Hs_Tz": ("ec-benchmark_dataset_A_1year.txt", [0, 1], None),
+    "get_OMAE2020_Hs_Tz": ("ec-benchmark_dataset_A_1year.txt", [0, 1], None),
+    "get_DNVGL_Hs_U": ("ec-benchmark_dataset_D_1year.txt", [1, 0], None),
+    "get_OMAE2020_V_Hs": ("ec-benchmark_dataset_D_1year.txt", [0, 1], None),
+    "get_Windmeier_EW_Hs_S": ("ec-benchmark_dataset_A_1year.txt", [0, 1], "hs_s"),
+    "get_Nonzero_EW_Hs_S": ("ec-benchmark_dataset_A_1year.txt", [0, 1], "hs_s"),
+}
+_FITTED = {}
+
+
+def predefined_data(name):
+    import os
+    import pandas as pd
+    import virocon as vc
+    fn, cols, tr = PREDEFINED[name]
+    data = vc.read_ec_benchmark_dataset(os.path.join(vlib.REPO, "datasets", fn)).iloc[:, cols]
+    if tr == "hs_s":
+        hs, tz = data.iloc[:, 0], data.iloc[:, 1]
+        _, st = vc.variable_transform.hs_tz_to_hs_s(hs, tz)
+        st.name = "steepness"
+        data = pd.concat([hs, st], axis=1)
+    return data
+
+
+def fit_predefined(name):
+    """GlobalHierarchicalModel of a predefined structure fitted with its own fit description (deterministic)"""
+    import virocon as vc
+    if name not in _FITTED:
+        r = getattr(vc, name)()
+        model = vc.GlobalHierarchicalModel(r[0])
+        data = predefined_data(name)
+        with warnings.catch_warnings():
+            warnings.simplefilter("ignore")
+            model.fit(data, r[1])
+        _FITTED[name] = (model, [float(data.iloc[:, k].max()) for k in range(data.shape[1])])
+    return _FITTED[name]
+
+
+def predefined_desc(name):
+    model, _ = fit_predefined(name)
+    return {"predefined": name, "dims": [{"family": "predefined", "cond": c} for c in model.conditional_on]}
 
 
 class MixtureConditional:
@@ -132,6 +189,8 @@ def build_model(desc):
     import virocon as vc
     if desc.get("table") is not None:
         return TableModel(desc["table"])
+    if desc.get("predefined") is not None:
+        return fit_predefined(desc["predefined"])[0]
     dds = []
     mixtures = []
     for k, d in enumerate(desc["dims"]):
@@ -156,7 +215,13 @@ def r3(rng, lo, hi):
 
 
 def gen_marginal(rng):
-    fam = rng.choice(["weibull", "weibull", "lognormal", "expweibull", "gengamma", "normal"])
+    fam = rng.choice(["weibull", "weibull", "lognormal", "expweibull", "gengamma", "normal", "vonmises", "lognormfit", "scipygamma"])
+    if fam == "vonmises":
+        return {"family": fam, "params": {"kappa": r3(rng, 0.8, 4), "mu": r3(rng, -1.0, 1.0)}}
+    if fam == "lognormfit":
+        return {"family": fam, "params": {"mu_norm": r3(rng, 1.5, 4), "sigma_norm": r3(rng, 0.4, 1.5)}}
+    if fam == "scipygamma":
+        return {"family": fam, "params": {"a": r3(rng, 1.2, 4), "loc": 0.0, "scale": r3(rng, 0.5, 2)}}
     if fam == "weibull":
         return {"family": fam, "params": {"alpha": r3(rng, 0.8, 4), "beta": r3(rng, 0.9, 3), "gamma": rng.choice([0.0, r3(rng, 0, 1)])}}
     if fam == "lognormal":
@@ -200,7 +265,7 @@ def gen_model_desc(rng, n_dim, multimodal=False):
     dims = [gen_marginal(rng)]
     for d in range(1, n_dim):
         r = rng.random()
-        parents = [k for k in range(d) if dims[k]["family"] != "normal"]    # a conditioning variable must be positive
+        parents = [k for k in range(d) if dims[k]["family"] not in SIGNED]    # a conditioning variable must be positive
         if r < 0.2 or not parents:
             dims.append(gen_marginal(rng))
         else:
@@ -211,6 +276,8 @@ def gen_model_desc(rng, n_dim, multimodal=False):
 def typical_upper(model, desc, p=0.9995):
     """a generous upper end per dimension (used only to place the grid): quantile p of the marginal, or of the
     conditional at an upper-ish conditioning value"""
+    if desc.get("predefined") is not None:
+        return [1.5 * u for u in fit_predefined(desc["predefined"])[1]]
     ups = []
     for d, dd in enumerate(desc["dims"]):
         dist = model.distributions[d]
@@ -242,6 +309,10 @@ def gen_grid(rng, model, desc, max_cells, alpha=None, ratio_max=10.0, min_axis=8
         lo = 0.0
         if rng.random() < 0.25:
             lo = float(round(rng.uniform(0, 0.04) * hi, 2))      # grid not starting at 0: c[1] - c[0] may differ from delta by an ulp
+        if desc["dims"][d]["family"] == "vonmises":
+            lo, hi = -3.3, 3.3                                   # the support is [-pi, pi]
+        if desc.get("predefined") is not None:
+            lo = float(round(0.02 * hi, 3))                      # some fitted dependence functions are undefined at 0
         cells = rng.randrange(min_axis, per_axis + 1)
         dl = (hi - lo) / cells
         if rng.random() < 0.5:
@@ -281,7 +352,36 @@ def gen_grid(rng, model, desc, max_cells, alpha=None, ratio_max=10.0, min_axis=8
         lims[k] = [lims[k][1], lims[k][0]]       # (max, min): _compute takes min()/max() of the tuple
     if rng.random() < 0.2:
         lims = [[int(round(a)), int(round(b))] if abs(round(b) - b) < 1e-12 and abs(round(a) - a) < 1e-12 else [a, b] for a, b in lims]
-    return {"limits": lims, "deltas": deltas}
+    # container types: deltas list / tuple / ndarray / numpy scalar / int, limits list of lists / of tuples / ndarray / tuple
+    dl_form = rng.choice(["asis", "asis", "tuple", "ndarray"]) if isinstance(deltas, list) else rng.choice(["asis", "asis", "npfloat"])
+    if not isinstance(deltas, list) and float(deltas) == int(deltas) and rng.random() < 0.5:
+        dl_form = "int"
+    lim_form = rng.choice(["tuples", "tuples", "lists", "ndarray", "tuple_of_lists"])
+    return {"limits": lims, "deltas": deltas, "lim_form": lim_form, "dl_form": dl_form}
+
+
+def apply_forms(limits, deltas, lim_form="tuples", dl_form="asis"):
+    lim = limits
+    if limits is not None:
+        if lim_form == "lists":
+            lim = [list(l) for l in limits]
+        elif lim_form == "ndarray":
+            lim = np.array([list(l) for l in limits])
+        elif lim_form == "tuple_of_lists":
+            lim = tuple(list(l) for l in limits)
+        else:
+            lim = [tuple(l) for l in limits]
+    dl = deltas
+    if deltas is not None:
+        if dl_form == "tuple":
+            dl = tuple(deltas)
+        elif dl_form == "ndarray":
+            dl = np.array(deltas, dtype=float)
+        elif dl_form == "npfloat":
+            dl = np.float64(deltas)
+        elif dl_form == "int":
+            dl = int(deltas)
+    return lim, dl
 
 
 # ------------------------------------------------------------------ recorders
@@ -382,8 +482,8 @@ class Recording:
             real_m = self.model.marginal_icdf
             self._had_m = "marginal_icdf" in self.model.__dict__
 
-            def marginal_icdf(p, dim, precision_factor=1):
-                v = real_m(p, dim, precision_factor=precision_factor)
+            def marginal_icdf(p, dim, precision_factor=1, **kw):
+                v = real_m(p, dim, precision_factor=precision_factor, **kw)
                 rec.micdf.append((float(p), int(dim), float(precision_factor), float(v)))
                 return v
             self.model.marginal_icdf = marginal_icdf
@@ -401,10 +501,10 @@ class Recording:
         return False
 
 
-def run_hdc(model, alpha, limits, deltas):
+def run_hdc(model, alpha, limits, deltas, lim_form="tuples", dl_form="asis"):
     """Runs the real HighestDensityContour with recorders; returns a dict (never raises)."""
     import virocon as vc
-    lim = None if limits is None else [tuple(l) for l in limits]
+    lim, deltas = apply_forms(limits, deltas, lim_form, dl_form)
     out = {"alpha": alpha}
     with Recording(model) as rec:
         with warnings.catch_warnings(record=True) as wl:
@@ -516,4 +616,20 @@ def coq_grid_case(i, desc, alpha, limits, deltas, out):
    match fst region_%d with HdrOk _ _ w => Bool.eqb w %s | _ => false end).
 Eval vm_compute in res_%d.""" % (i, i, impl_coords, i, nat_list(out["f"].shape), i, i, i, i, i, hdr_txt,
                                i, fl(float(c.fm)), i, fl(float(c.fm)), i, "true" if out["warned"] else "false", i))
+    return "\n".join(t) + "\n"
+
+
+def coq_grid_error_case(i, desc, alpha, limits, deltas, out):
+    """the implementation raised inside _compute: the model, fed with the cdf calls recorded up to the exception, must take
+    the same branch.  Result (one Eval): (branch: 0 ok / 1 nan -> ValueError / 2 IndexError, number of cells)"""
+    n = len(desc["dims"])
+    marg = [v for (_, _, _, v) in out["micdf"]]
+    t = []
+    t.append("Definition etbl_%d : list (nat * option float * list float * list float) := %s." % (i, cdf_table(out["calls_compute"])))
+    t.append("Definition elims_%d := grid_limits %d%%nat %s %s." % (i, n, limits_coq(limits), fl_list(marg)))
+    t.append("Definition edls_%d := grid_deltas %d%%nat elims_%d %s." % (i, n, i, deltas_coq(deltas)))
+    t.append("Definition ecoords_%d := grid_coords elims_%d edls_%d." % (i, i, i))
+    t.append("""Eval vm_compute in
+  (match fst (f_region (lookup etbl_%d) %s ecoords_%d edls_%d %s) with HdrOk _ _ _ => 0%%Z | HdrNan => 1%%Z | HdrIndexError => 2%%Z end,
+   Z.of_nat (List.length (a_data (f_joint (lookup etbl_%d) %s ecoords_%d)))).""" % (i, cond_list(desc), i, i, fl(alpha), i, cond_list(desc), i))
     return "\n".join(t) + "\n"
